@@ -51,4 +51,9 @@ CLAIMS["C10"] = {
     "text": "Decides on every CFG path of one check: each outcome (parse error, plan error, deferred, denied, install start, some app installed) reaches exactly its report with the event the property names and no other; download-started dominates perform_install; the per-app event table by installer result; every report uses the check's single session GUID and a request_id(GUID::new()) applied last before its send; previous/next version provenance and map filtering; a failed report records OmahaEventLost (once in the helper, once per listed event inline) and is never sent again; offered apps are zipped with installer results by position.",
     "note": "Installer contract (one result per offered app in response order) is assumed. The one-vs-many lost-event count for multi-app helper reports is not decided.",
 }
+CLAIMS["C18"] = {
+    "technique": "storage-key user census with guard dominance (MIR), must-pass-through ordering of set/commit before reboot_needed on the interprocedural CFG, decision-table extraction of the install-success fold, typestate of the report-once flag, panic-site census of the duration computation",
+    "text": "Decides: plan id and first-seen time are rewritten only when the stored id is absent or differs and are committed together, the equal path returns the stored time; the attempt counter is consulted only/always when the per-app fold yields Some (exact fold table), reported as stored+1, removed on success, stored+1 on failure; finish time and the system app's target version (looked up under get_system_app_id) are stored and committed before reboot_needed/Needed and never after an installation error; the waited-for-reboot report is guarded by a flag set only under stored finish time and target version == running version, cleared with both keys removed+committed only/always on a successful report; the start instant is taken once; the duration arithmetic is checked.",
+    "note": "Durability after commit is the Storage contract. Numeric correctness of the reported durations is not decided.",
+}
 NOT_APPLICABLE = {}
